@@ -16,8 +16,22 @@ EX = ("f", THIS, "execdata")
 _memo = {}
 
 
-def _explorer(prog, files):
-    return symx.Explorer(prog, inline=lambda fn, n: fn.file in files and fn.rec is None, transparent=lambda n: True)
+def _explorer(prog, files, root=None):
+    """free helpers of the same file are inlined; so is a member function that only the analysed function calls (a block of it that
+    was extracted into a private method) - methods with other callers (parse_script, ...) stay uninterpreted symbols"""
+    private = set()
+    if root is not None:
+        callers = {}
+        for f in prog.facts.funcs.values():
+            if f.body is None:
+                continue
+            for (_n, c) in prog.callees(f):
+                callers.setdefault(c.id, set()).add(f.id)
+        for fid, cs in callers.items():
+            g = prog.facts.funcs.get(fid)
+            if g is not None and g.rec == root.rec and g.rec is not None and g.file in files and cs == {root.id}:
+                private.add(fid)
+    return symx.Explorer(prog, inline=lambda fn, n: fn.file in files and (fn.rec is None or fn.id in private), transparent=lambda n: True)
 
 
 def setup_outcomes(fb, prog):
@@ -33,7 +47,7 @@ def setup_outcomes(fb, prog):
         if miss:
             raise AnalysisBroken("set-up rules: anchor name(s) %s not found in %s - renamed or restructured; update the anchor table" % (miss, rec))
     cf = fb.fn("Instance::configure_tx_txin")
-    X = _explorer(prog, ("instance.cpp",))
+    X = _explorer(prog, ("instance.cpp",), cf)
     try:
         outs = X.explore(cf, this=THIS, limit=200000)
     except symx.Unsupported as e:
